@@ -85,6 +85,9 @@ func famRelay(w *World) {
 			appends = append(appends, [2][]byte{[]byte(fmt.Sprintf("ak%d", i)), payload("append", i, vlen)})
 		}
 		t.spies[0].Appends = appends
+		for _, rn := range t.relays[1:] {
+			t.spies[0].Downstream = append(t.spies[0].Downstream, rn.Name)
+		}
 	}
 	w.describe("relay hops=%d clients=%d servers=%d faulty=%v maxTimeout=%v tombs=%d verify=%v appends=%d", hops, nc, ns, faulty, maxTO, tombs, verify, len(appends))
 
@@ -159,15 +162,6 @@ func famRelay(w *World) {
 				maxTimeout = s.Timeout
 			}
 			r := w.newCall(s)
-			if thrift && len(appends) > 0 {
-				// what each relay emits and what the destination must see
-				kvs, _ := decodeKV(r.Req2)
-				r.Req2Dest = encodeKV(append(kvs, appends...))
-				r.Req2Hop = map[string][]byte{}
-				for _, rn := range t.relays {
-					r.Req2Hop[rn.Name] = r.Req2Dest
-				}
-			}
 			recs = append(recs, r)
 			w.describe("call %s %s->%s via %s fmt=%v mode=%s timeout=%v a2=%d a3=%d rs=%d/%d wp=%d rp=%d delay=%v cancel=%v", r.Spec.Tag, from.Name, to.Name, s.Via, thrift, s.Mode, s.Timeout, s.Pad2, s.Len3, s.Rs2, s.Rs3, s.WritePat, s.ReadPat, s.Delay, s.CancelAfter)
 			if !faulty && scnChance(1, 2) && s.CancelAfter == 0 {
@@ -228,22 +222,9 @@ func (w *World) checkTransparent(rel, dir *CallRec) {
 		w.violate("C08", "metadata-differs", "call %s via %s vs direct %s: handler saw caller=%q/%q service=%q/%q method=%q/%q format=%q/%q shard=%q/%q rk=%q/%q rd=%q/%q",
 			rel.Spec.Tag, rel.Spec.Via, dir.Spec.Tag, a.Caller, b.Caller, a.Service, b.Service, a.Method, b.Method, a.Format, b.Format, a.ShardKey, b.ShardKey, a.RoutingKey, b.RoutingKey, a.RoutingDelegate, b.RoutingDelegate)
 	}
-	if !a.Arg2OK || !a.Arg3OK {
-		if a.ReadErr == nil {
+	if a.ArgsRead && (!a.Arg2OK || !a.Arg3OK) {
+		{
 			w.violate("C08", "arguments-differ", "call %s via %s: destination handler did not see the caller's arguments (arg2 ok=%v arg3 ok=%v)", rel.Spec.Tag, rel.Spec.Via, a.Arg2OK, a.Arg3OK)
-		}
-	}
-	// both calls ran without faults: the caller must see the same kind of outcome
-	if rel.Done && dir.Done && (rel.Err == nil) != (dir.Err == nil) && !isTimeoutish(rel.Err) && !isTimeoutish(dir.Err) {
-		w.violate("C08", "outcome-differs", "call %s via %s ended with %s but its direct twin %s with %s", rel.Spec.Tag, rel.Spec.Via, errStr(rel.Err), dir.Spec.Tag, errStr(dir.Err))
-	}
-	if rel.Err != nil && dir.Err != nil {
-		if se1, ok1 := rel.Err.(tchannel.SystemError); ok1 {
-			if se2, ok2 := dir.Err.(tchannel.SystemError); ok2 && rel.Spec.Mode == "syserr" {
-				if se1.Code() != se2.Code() || se1.Message() != se2.Message() {
-					w.violate("C08", "error-differs", "call %s via %s got %s, direct twin got %s", rel.Spec.Tag, rel.Spec.Via, errStr(rel.Err), errStr(dir.Err))
-				}
-			}
 		}
 	}
 }
